@@ -103,9 +103,13 @@ Proof. exact finish_rselect. Qed.
 Print Assumptions C03_select_listed.
 
 (* ---------------- distinct ---------------- *)
+(* Since round 5 the hypothesis on == (veqb) is only that it is an equivalence ([veq_equiv]: reflexive,
+   symmetric, transitive) - NOT that equal values are identical: 1 == 1.0 == True in Python.  All
+   equations below are equalities of the rows THEMSELVES, so "keeps the first of each set of equal
+   rows" means the first member itself survives, not merely a row equal to it. *)
 Theorem C03_distinct :
   forall (V : Type) (veqb : V -> V -> bool) (Nm : Type),
-  (forall a b : V, veqb a b = true <-> a = b) ->
+  veq_equiv V veqb ->
   forall (sc : schema Nm) (b : backing V),
   code_distinct V veqb Nm (mkF sc b) =
   (mkF sc (fst (drain V b)), mkR sc (RList (spec_distinct V veqb (rows_of V b)))).
@@ -116,7 +120,7 @@ Print Assumptions C03_distinct.
    themselves do; their hashes do not - F-C03-3, see the example at the end) *)
 Theorem C03_distinct_faithful_key :
   forall (V : Type) (veqb : V -> V -> bool),
-  (forall a b : V, veqb a b = true <-> a = b) ->
+  veq_equiv V veqb ->
   forall (K : Type) (key : list V -> K) (keqb : K -> K -> bool),
   (forall a b : list V, keqb (key a) (key b) = row_eqb V veqb a b) ->
   forall l : list (list V), distinct_loop V K key keqb [] l = spec_distinct V veqb l.
@@ -127,14 +131,42 @@ Print Assumptions C03_distinct_faithful_key.
    survivor of each class is the first one, the order is the input's) *)
 Theorem C03_distinct_same_rows :
   forall (V : Type) (veqb : V -> V -> bool),
-  (forall a b : V, veqb a b = true <-> a = b) ->
+  veq_equiv V veqb -> (forall a b : V, veqb a b = true -> a = b) ->
   forall (l : list (list V)) (x : list V), In x (spec_distinct V veqb l) <-> In x l.
 Proof. exact spec_distinct_In. Qed.
 Print Assumptions C03_distinct_same_rows.
 
+(* the general reading (== any equivalence): every survivor is a row of the input; every row of the
+   input is equal to a survivor; no two survivors are equal; and a row survives iff no EARLIER row
+   of the input is equal to it (spec_firsts) - the survivor is the first member of its class itself *)
+Theorem C03_distinct_survivors_are_rows :
+  forall (V : Type) (veqb : V -> V -> bool) (l : list (list V)) (x : list V),
+  In x (spec_distinct V veqb l) -> In x l.
+Proof. exact spec_distinct_sub. Qed.
+Print Assumptions C03_distinct_survivors_are_rows.
+
+Theorem C03_distinct_represents_every_row :
+  forall (V : Type) (veqb : V -> V -> bool), veq_equiv V veqb ->
+  forall (l : list (list V)) (x : list V),
+  In x l -> exists y, In y (spec_distinct V veqb l) /\ row_eqb V veqb y x = true.
+Proof. exact spec_distinct_represents. Qed.
+Print Assumptions C03_distinct_represents_every_row.
+
+Theorem C03_distinct_no_two_equal :
+  forall (V : Type) (veqb : V -> V -> bool) (l : list (list V)),
+  ForallOrdPairs (fun a b => row_eqb V veqb a b = false) (spec_distinct V veqb l).
+Proof. exact spec_distinct_pairwise. Qed.
+Print Assumptions C03_distinct_no_two_equal.
+
+Theorem C03_distinct_keeps_the_first_of_each_class :
+  forall (V : Type) (veqb : V -> V -> bool), veq_equiv V veqb ->
+  forall l : list (list V), spec_distinct V veqb l = spec_firsts V veqb [] l.
+Proof. exact spec_distinct_firsts. Qed.
+Print Assumptions C03_distinct_keeps_the_first_of_each_class.
+
 Theorem C03_distinct_no_duplicates :
   forall (V : Type) (veqb : V -> V -> bool),
-  (forall a b : V, veqb a b = true <-> a = b) ->
+  veq_equiv V veqb ->
   forall l : list (list V), NoDup (spec_distinct V veqb l).
 Proof. exact spec_distinct_NoDup. Qed.
 Print Assumptions C03_distinct_no_duplicates.
@@ -222,7 +254,7 @@ Print Assumptions C03_iterate.
    was materialised (as spec_left says when it was a generator). *)
 Theorem C03_operator_step :
   forall (V : Type) (veqb : V -> V -> bool) (dflt : V) (Nm : Type) (nmeqb : Nm -> Nm -> bool),
-  (forall a b : V, veqb a b = true <-> a = b) ->
+  veq_equiv V veqb ->
   forall (sc : schema Nm) (b : backing V) (o : op V Nm),
   not_add V Nm o ->
   op_ok V Nm nmeqb o (mkSF sc (rows_of V b)) = true ->
@@ -243,7 +275,7 @@ Print Assumptions C03_operator_step.
    plain-list run. *)
 Theorem C03_programs :
   forall (V : Type) (veqb : V -> V -> bool) (dflt : V) (Nm : Type) (nmeqb : Nm -> Nm -> bool),
-  (forall a b : V, veqb a b = true <-> a = b) ->
+  veq_equiv V veqb ->
   forall (prog : list (stepd V Nm)) (env : list (sframe V Nm)),
   prog_ok V veqb dflt Nm nmeqb env prog = true ->
   run_code V veqb dflt Nm nmeqb (map (eager_of V Nm) env) prog =
@@ -276,7 +308,7 @@ Print Assumptions C03_add_eager_sources_unchanged.
    still there unchanged at the end *)
 Theorem C03_programs_keep_frames :
   forall (V : Type) (veqb : V -> V -> bool) (dflt : V) (Nm : Type) (nmeqb : Nm -> Nm -> bool),
-  (forall a b : V, veqb a b = true <-> a = b) ->
+  veq_equiv V veqb ->
   forall (prog : list (stepd V Nm)) (env : list (sframe V Nm)),
   prog_ok V veqb dflt Nm nmeqb env prog = true ->
   exists news, fst (run_code V veqb dflt Nm nmeqb (map (eager_of V Nm) env) prog) =
@@ -304,9 +336,30 @@ Example C03_nonvacuous :
    OCols [[-2; 3]; [2; 3]]%Z].
 Proof. split; vm_compute; reflexivity. Qed.
 
-(* the hypothesis on == is satisfiable *)
-Example C03_veqb_Z : forall a b : Z, Z.eqb a b = true <-> a = b.
-Proof. exact Z.eqb_eq. Qed.
+(* the hypothesis on == is satisfiable: by identity on Z (rounds 1-4) and by Python's == on the
+   coded values of the correspondence (4n + t: n as int / float / bool), which is NOT identity *)
+Example C03_veqb_Z : veq_equiv Z Z.eqb.
+Proof.
+  repeat split; intros.
+  - apply Z.eqb_refl.
+  - apply Z.eqb_sym.
+  - apply Z.eqb_eq in H, H0. subst. apply Z.eqb_refl.
+Qed.
+
+Example C03_veqb_python : veq_equiv Z zveq /\ zveq 4 5 = true /\ zveq 5 6 = true /\ Z.eqb 4 5 = false.
+Proof.
+  repeat split; try reflexivity; unfold zveq; intros.
+  - apply Z.eqb_refl.
+  - apply Z.eqb_sym.
+  - apply Z.eqb_eq in H, H0. rewrite H, H0. apply Z.eqb_refl.
+Qed.
+
+(* (1,) (2.0,) (1.0,) (True,) (2,) : distinct keeps (1,) and (2.0,) - the first of each class
+   itself (codes: 1 -> 4, 1.0 -> 5, True -> 6, 2 -> 8, 2.0 -> 9) *)
+Example C03_distinct_equal_but_distinguishable :
+  snd (code_distinct Z zveq N (mkF (mkS Untyped [0%N]) (Eager [[4]; [9]; [5]; [6]; [8]]%Z)))
+  = mkR (mkS Untyped [0%N]) (RList [[4]; [9]]%Z).
+Proof. vm_compute. reflexivity. Qed.
 
 (* the rows themselves are a faithful set key *)
 Example C03_identity_key_faithful :
@@ -325,6 +378,13 @@ Example C03_hash_keyed_distinct_refuted :
   distinct_loop Z (list Z) pyhash (row_eqb Z Z.eqb) [] [[-1]; [-2]]%Z
   <> spec_distinct Z Z.eqb [[-1]; [-2]]%Z.
 Proof. vm_compute. discriminate. Qed.
+
+(* round-5 seeded change: a dict comprehension {row: row ...}.values() keeps the first key's POSITION
+   but the last equal row's VALUE: (True,) and (2,) survive instead of (1,) and (2.0,) *)
+Example C03_dict_distinct_refuted :
+  dict_distinct Z zveq [[4]; [9]; [5]; [6]; [8]]%Z = [[6]; [8]]%Z /\
+  dict_distinct Z zveq [[4]; [9]; [5]; [6]; [8]]%Z <> spec_distinct Z zveq [[4]; [9]; [5]; [6]; [8]]%Z.
+Proof. split; [vm_compute; reflexivity|vm_compute; discriminate]. Qed.
 
 (* F-C03-4: with __iter__ = iter(self._rows) the first listing of a generator-backed frame is empty *)
 Example C03_pinned_list_refuted :
